@@ -17,7 +17,8 @@ cp $SRC/demo_test.go $W/$PKG/zz_demo_test.go
 (cd $W/$PKG && go test -vet=off -count=1 $RACE . 2>&1 | grep -v "^\s*$" | tail -4 | cut -c1-200)
 rm -f $W/$PKG/zz_demo_test.go
 git checkout -q -- . && git clean -fdq
-echo "--- registered checks on /repo with the patch applied"
-git -C /repo apply $SRC/patch.diff || exit 9
-for P in $PROPS; do (cd /verif && ./check $P quick 2>&1 | grep "VIOLATION\|clause=\|quick:\|ERROR\|KNOWN\|note" | cut -c1-260); done
-git -C /repo checkout -- . && git -C /repo status --short
+echo "--- registered checks on a scratch copy of /repo with the patch applied"
+T=$(mktemp -d /tmp/seedeval.XXXX); mkdir -p $T/repo; rsync -a --exclude .git /repo/ $T/repo/
+(cd $T/repo && git init -q . && git apply $SRC/patch.diff && rm -rf .git) || exit 9
+for P in $PROPS; do (cd /verif && VERIF_EVIDENCE_DIR=$T/ev VERIF_REPLAY_DIR=$T/rp VERIF_REPO=$T/repo ./check $P quick 2>&1 | grep "VIOLATION\|clause=\|quick:\|ERROR\|KNOWN\|note" | cut -c1-260); done
+rm -rf $T
